@@ -224,6 +224,8 @@ def run(m: Model, r: Report, tier: str) -> None:
     rz = m.require_function(f"{SRV}.RandomUDSServer.randomize")
     r.check(m.has(rz, "session_transitions[default_session] = {default_session}") and m.has(rz, "default_session = 1"), "R4",
             f"{rz.qualname}#default-session-offered", "session 1 must always be part of the model", loc=rz.loc)
+    from checks.c16 import session_graph_rules
+    session_graph_rules(m, r, "R4")
     asrt = [f.qualname for f in us.methods.values() if "Virtual ECU in unsupported session" in ast.unparse(f.node)]
     r.extra["invariant_asserted_in"] = asrt
     for f in us.methods.values():
@@ -428,6 +430,24 @@ def run(m: Model, r: Report, tier: str) -> None:
         a_ = ca.analyse(cls)
         issues = [i for p in a_.accepted for i in p.issues if i.kind in CODEC_HARD]
         r.check(bool(a_.accepted) and not issues, "R6", q, "; ".join(sorted({i.msg for i in issues}))[:600], loc=cls.loc)
+
+    # the client's length gate admits what the server can build: the declared envelope covers the ISO envelope of the response
+    from sa.oracles import iso14229 as _iso
+    n_env = 0
+    for pr in reg.pairs:
+        if pr.response is None or pr.service_id is None or pr.response.qualname not in emitted:
+            continue
+        key = (pr.service_id, pr.sub_function_id) if (pr.service_id, pr.sub_function_id) in _iso.RESP else (pr.service_id, None)
+        if key not in _iso.RESP:
+            continue
+        _shapes, iso_min, iso_max = _iso.RESP[key]
+        mn, mx = m.class_kw(pr.response, "minimal_length"), m.class_kw(pr.response, "maximal_length")
+        n_env += 1
+        r.check(isinstance(mn, int) and mn <= iso_min and (mx is None or (iso_max is not None and mx >= iso_max)), "R6", f"{pr.response.qualname}#envelope",
+                f"declared lengths {mn}..{mx} do not cover the ISO envelope {iso_min}..{iso_max}: a reply the server builds with every optional field is refused by "
+                "the client's parser as malformed", loc=pr.response.loc)
+    if n_env < 8:
+        raise AnalysisError(f"only {n_env} emitted response classes have an ISO envelope row")
 
     # ---------------------------------------------------------------- R7
     from checks.c03 import abstract_match
